@@ -302,6 +302,9 @@ func (r *Redirect) parseAndClearFlashMessages() {
 	if err != nil {
 		return
 	}
+
+	// the messages are consumed now, tell the client to drop the cookie
+	r.c.ClearCookie(FlashCookieName)
 }
 
 // processFlashMessages is a helper function to process flash messages and old input data
